@@ -279,10 +279,14 @@ pub fn run(ctx: &Ctx) -> (Stats, Spec) {
         s
     });
     st.merge(crate::report::merge_all(parts));
+    let wk_iters = ctx.tier.pick(3_000u64, 60_000u64);
+    let parts = util::par_jobs(16, |job| super::weak::weak_hash_job(ctx, "C04", job, wk_iters));
+    st.merge(crate::report::merge_all(parts));
     let spec = Spec {
         rule: "f ranges over all functions of 3 (4) variables embedded among outside labels, V over all lists up to length 3 incl. repeated, outside-support and empty lists; random f over 4-7 sparse labels with lists up to length 6; language forms `exists|any|forall|all <list>[,] # <body>` with DNF bodies and with random bodies using every connective. distinct = (table, set(V), quantifier, family); non-trivial = V meets the support of a non-constant f.".into(),
         assumptions: vec!["value of a result is read by walking it; support is computed from the operand's truth table".into()],
         floors: vec![
+            ("weak_hash_symbol_calls".into(), 2_000, "environment over a constant-hash symbol type never exercised".into()),
             ("exists".into(), 10_000, "exists never exercised".into()),
             ("all".into(), 10_000, "all never exercised".into()),
             ("exists_impl".into(), 500, "exists_impl never exercised".into()),
@@ -296,6 +300,13 @@ pub fn run(ctx: &Ctx) -> (Stats, Spec) {
 }
 
 pub fn replay(_ctx: &Ctx, _monitor: &str, case: &Value, st: &mut Stats) {
+    if case.get("kind").and_then(|k| k.as_str()) == Some("weak-hash") {
+        let job = case.get("job").and_then(|j| j.as_u64()).unwrap_or(0) as usize;
+        let mut c2 = _ctx.clone();
+        c2.seed = case.get("seed").and_then(|j| j.as_u64()).unwrap_or(c2.seed);
+        st.merge(super::weak::weak_hash_job(&c2, "C04", job, 20_000));
+        return;
+    }
     if case.get("kind").and_then(|k| k.as_str()) == Some("language") {
         // re-run the single text through the same judge
         let text = case.get("text").and_then(|t| t.as_str()).unwrap_or("").to_string();
